@@ -96,7 +96,7 @@ def overtake(exe, seed):
         parts.append("g%d" % (j // 400))
     body.append("Definition g : list (Z * event) := %s." % " ++ ".join(parts))
     for ts in ("tstep", "tstep_old"):
-        body.append("Eval vm_compute in (let '(i, okb) := xreplay %s %s (init_state, h0) g 0 in [i; if okb then 1 else 0])."
+        body.append("Eval vm_compute in (let '(i, okb) := xreplay %s %s (init_state, h0) g 0 true in [i; if okb then 1 else 0])."
                     % (ts, driver.zlist(ths)))
     ok, vals, raw = driver.coq_eval("c05s_overtake_%d" % seed, IMPORTS, "\n".join(body) + "\n", timeout=900)
     if not ok or len(vals) != 2:
